@@ -167,6 +167,42 @@ func IsErrorReturn(p *core.Program, w *facts.Walker, fn *types.Func, ret *ast.Re
 	return false
 }
 
+// StableResult renders a returned expression for a construct: a local that has a single definition from a call is
+// named after the callee ("result of F"), anything else is rendered by core.Stable. Renaming the local does not change
+// the text, and two locals of the same type with different origins stay apart.
+func StableResult(fd *core.FuncDecl, e ast.Expr) string {
+	info := fd.Pkg.TypesInfo
+	if id, ok := ast.Unparen(e).(*ast.Ident); ok {
+		if v, isV := info.ObjectOf(id).(*types.Var); isV && !v.IsField() && v.Pkg() != nil && v.Parent() != v.Pkg().Scope() {
+			var defs []ast.Expr
+			ast.Inspect(fd.Decl.Body, func(n ast.Node) bool {
+				as, isAs := n.(*ast.AssignStmt)
+				if !isAs {
+					return true
+				}
+				for i, l := range as.Lhs {
+					if lid, isID := l.(*ast.Ident); isID && info.ObjectOf(lid) == v {
+						if len(as.Rhs) == len(as.Lhs) {
+							defs = append(defs, as.Rhs[i])
+						} else if len(as.Rhs) == 1 {
+							defs = append(defs, as.Rhs[0])
+						}
+					}
+				}
+				return true
+			})
+			if len(defs) == 1 {
+				if c, isC := ast.Unparen(defs[0]).(*ast.CallExpr); isC {
+					if fn := core.Callee(info, c); fn != nil {
+						return "‹result of " + fn.Name() + "›"
+					}
+				}
+			}
+		}
+	}
+	return core.Stable(info, e)
+}
+
 // ---------------------------------------------------------------- dominance helpers
 
 // Dominated reports, for one node `target` of fd, whether every path from the
